@@ -62,6 +62,14 @@ CHECKS = {
         "note": TB + "stream index lookups abstracted to a symbolic answer per stream; HashMap -> direct-indexed shim; mock WriterSet/WriteError; the reference model in harness/c02/harness.rs.",
         "technique": "Kani/CBMC bounded model checking of the verbatim validator, differential against a reference model",
     },
+    "C03": {
+        "text": "KERNEL claim (the offset-index arithmetic; the closed-index lookups, block cache, segment hand-over and reopen are outside): bounded model checking of the verbatim SegmentIter::{new, remaining_offsets, skip, "
+                "is_finished} and the verbatim offsets_index expression of the iterator configs: for a segment holding 1..4 versions of a stream (symbolic strictly increasing file offsets, first version and start position over "
+                "full u64), a forward scan's remaining offsets are exactly those at or after the position in order, a reverse scan's exactly those at or before it in decreasing order; skip() is exact and bounded.",
+        "note": TB + "the statement-range slicer; the live-index precondition version_min <= from is assumed. The end-to-end behaviour (every start position, both directions, 1 and 3 segments) is exercised by the native "
+                "reproducer replay-cluster c03, which is a replay aid, not a solver check.",
+        "technique": "Kani/CBMC bounded model checking of verbatim slices of the segment iterator index arithmetic",
+    },
     "C07": {
         "text": "Claimed for the gating logic of the two local scan handlers (event lookup was read off as correct and is not encoded; version/sequence queries are outside): bounded model checking of verbatim "
                 "statement ranges of ClusterActor::handle_partition_read_locally and handle_stream_read_locally over a mock iterator that stores ALL events of a small partition log, confirmed or not: for every "
@@ -164,7 +172,6 @@ NOT_APPLICABLE = {
     "C20": "liveness under thread schedules and tokio wake-up semantics: not a bounded safety query",
 }
 NOT_APPLICABLE.update({
-    "C03": "not reached: the scan arithmetic lives in SegmentIter/BucketIter (async, block cache, MPHF lookups); no harness was built - nothing claimed",
     "C04": "not reached: commit matching (SegmentBlock::read_committed_events) decodes bincode RawEvent/RawCommit records through the sierradb crate; no overlay of that crate was built - nothing claimed",
     "C05": "attempted, no verdict: Writer::open's recovery scan is a data-dependent loop (every CRC outcome forks, the resume offset then indexes every buffer); CBMC did not finish one crash cut in 20 min even with the cut, "
            "lengths and start offset concrete (harness kept as harness/seglog/c05.rs, not registered); hydration of the indexes (K2) needs the sierradb indexes - nothing claimed",
